@@ -96,6 +96,8 @@ func genC17Packet(t *rapid.T) []byte {
 	p := &ref.Packet{}
 	genHeader(t, p)
 	p.PID = 0x100
+	// packets a demultiplexer would hand to an accumulator: no transport error, not scrambled (one that refuses others conforms)
+	p.TEI, p.TSC = false, 0
 	p.PUSI = rapid.IntRange(0, 3).Draw(t, "pusi3") == 0
 	switch rapid.IntRange(0, 5).Draw(t, "shape") {
 	case 0: // no payload
@@ -107,7 +109,7 @@ func genC17Packet(t *rapid.T) []byte {
 		p.AF = &ref.AF{Len: 0}
 		p.Payload = genBytes(t, 183, 183, "pl")
 	case 2: // short payload behind stuffing
-		l := rapid.IntRange(100, 183).Draw(t, "afl")
+		l := rapid.IntRange(100, 182).Draw(t, "afl") // with a payload the field is at most 182 bytes long (ISO 2.4.3.5)
 		p.AFC = 3
 		p.AF = &ref.AF{Len: l}
 		p.Payload = genBytes(t, 183-l, 183-l, "pl")
@@ -152,6 +154,7 @@ type c17Model struct {
 	buf   []byte
 	must  [][]byte // packets that contributed (must appear, in order)
 	may   [][]byte // all packets submitted since the last unit start that passed the gate (super-sequence bound)
+	perr  error    // the predicate's error, once it has failed in this unit (an accumulator may go on refusing with it)
 	opt   int      // packets of may that may or may not be listed (empty payload, predicate failed: a rollback is invisible)
 }
 
@@ -309,6 +312,7 @@ func checkC17(c CaseC17, x *hx.Ctx) *hx.Failure {
 					m.must = nil
 					m.may = nil
 					m.opt = 0
+					m.perr = nil
 				}
 				m.may = append(m.may, clone(b[:]))
 				if rp.AFC&1 == 0 {
@@ -318,12 +322,21 @@ func checkC17(c CaseC17, x *hx.Ctx) *hx.Failure {
 					}
 					break
 				}
+				if m.perr != nil && err != nil && errors.Is(err, m.perr) && bytes.Equal(acc.Bytes(), m.buf) {
+					if d2, e2 := pred(append(clone(m.buf), rp.Payload...)); !d2 && !errors.Is(e2, m.perr) {
+						// the predicate failed earlier in this unit and the accumulator keeps refusing with that error until
+						// the next unit start (as bufio.Writer does): what happens after a predicate error is not stated
+						x.Label("predicate-error-sticky")
+						break
+					}
+				}
 				m.buf = append(m.buf, rp.Payload...)
 				m.must = append(m.must, clone(b[:]))
 				done, perr := pred(m.buf)
 				switch {
 				case perr != nil:
 					nPredErr++
+					m.perr = perr
 					if !errors.Is(err, perr) {
 						return hx.Failf("predicate-error-lost", "%s: the predicate failed (done=%v) but WritePacket returned %v", desc, done, err)
 					}
